@@ -818,7 +818,7 @@ def w_spans_arbitrary(args):
                     if not (hs in {t[2] for t in toks} and he in {t[3] for t in toks}) and not clean.startswith(("Formula ended before", "Unexpected character")):
                         w = {"string": s, "message": msg[:300], "highlighted": [hs, he], "token_spans": [[t[2], t[3]] for t in toks], "code": ERRCTX_BOUNDARY_REPRO.format(s=s)}
                         first = clean.split("\n", 1)[0]
-                        sub = "missing-operator-before-argumentless-operator" if first.startswith("Missing operator between") and first.rstrip(".").endswith("and `.`") and hs == he else "other"
+                        sub = "missing-operator-rhs-without-source-position" if first.startswith("Missing operator between") and hs == he and hs in {t[2] for t in toks} else "other"
                         acc.fail("C15.spans.error-context", f"highlight-not-on-token-boundaries/{sub}", w, f"error context of {s!r} highlights {(hs, he)} = {s[hs:he + 1]!r}, token spans are {[(t[2], t[3]) for t in toks]}")
         except Exception:
             pass
